@@ -528,6 +528,9 @@ func (g *dbGen) randomPutOpts(mode string, versions []int64) map[string]string {
 		for i := 0; i < n; i++ {
 			name := g.idxN[g.rng.Intn(len(g.idxN))]
 			sk := []string{"a", "b", "c", "a/b", "b-1", "zz", "a\x02", "m"}[g.rng.Intn(8)]
+			if g.rng.Intn(25) == 0 {
+				sk = "" // an empty secondary key is accepted by the write path: the index entry has to stay readable
+			}
 			parts = append(parts, core.Hex([]byte(name))+"="+core.Hex([]byte(sk)))
 		}
 		o["idx"] = strings.Join(parts, ";")
